@@ -20,8 +20,11 @@
        job returned nil the Results targets hold the same provider values whatever the
        order (C02_results);
      - the canonical order the extracted model runs is one of these executions.
-   Independence of the *listing order* of the tasks is exercised by the correspondence
-   (the generator shuffles the tasks), not proved: partial on that clause.
+   Independence of the *listing order* of the tasks is proved at the end of this file
+   (C02_listing_order_independent, via FlowListing) and also exercised (the generator
+   shuffles the tasks). The flow semantics FlowSemModel is proved to be exactly what the
+   generated jobs do (C02_semantics_is_the_generated_code), and `reach` is discharged
+   against the scheduler model (C02_every_scheduler_run).
    Tie to the code: (1) the Dependencies lists parsed from every generated *_gen.go file
    must equal jdeps; (2) every execution of the generated programs must make the calls,
    return the error and leave the results the model computes. *)
